@@ -578,6 +578,35 @@ pub fn shuffle_names(m: &mut Model, rng: &mut Rng) {
             }
         }
     }
+    if rng.chance(0.07) {
+        // CASE TWINS: names that differ only in the case of their letters (`Ab`/`AB`, `LParen`/`Lparen`), given
+        // to symbols that are declared next to each other (so that they meet in one state, one lookahead
+        // set, one table row); a comparison that ignores case confuses them
+        const T_TWINS: &[&[&str]] = &[&["Ab", "AB"], &["Cd", "CD", "CD_"], &["Xyz", "XYZ", "XyZ"], &["Lparen", "LParen", "LPAREN"], &["Num", "NUM"], &["Op", "OP"], &["Kw", "KW"], &["Id", "ID"]];
+        const N_TWINS: &[&[&str]] = &[&["Expr", "EXPR", "ExPr"], &["List", "LIST"], &["Item", "ITEM", "ITem"], &["Stmt", "STMT"], &["Ty", "TY"], &["Pat", "PAT"]];
+        let mut tn: Vec<&str> = vec![];
+        let mut order: Vec<usize> = (0..T_TWINS.len()).collect();
+        rng.shuffle(&mut order);
+        for i in order {
+            tn.extend_from_slice(T_TWINS[i]);
+        }
+        let mut nn: Vec<&str> = vec![];
+        let mut order: Vec<usize> = (0..N_TWINS.len()).collect();
+        rng.shuffle(&mut order);
+        for i in order {
+            nn.extend_from_slice(N_TWINS[i]);
+        }
+        if m.terms.len() <= tn.len() && m.nts.len() <= nn.len() && !tn.iter().chain(nn.iter()).any(|x| *x == m.term_enum) {
+            let twins_for_nts = rng.chance(0.5);
+            for (i, t) in m.terms.iter_mut().enumerate() {
+                t.name = tn[i].to_string();
+            }
+            for (i, nt) in m.nts.iter_mut().enumerate() {
+                nt.name = if twins_for_nts { nn[i].to_string() } else { format!("N{i}x") };
+            }
+            return;
+        }
+    }
     if rng.chance(0.05) {
         // very long names that share a long prefix and differ only at the very end (keys cut to a fixed
         // width, hashes of prefixes, column arithmetic in the emitted text)
